@@ -1,4 +1,203 @@
-import FloxProofs.Members
+/-
+  C20 — numeric fidelity: infinities are data, not missing; var / std agree between eager and chunked evaluation.
+
+  SCOPE – READ THIS FIRST.  The model computes in `Val` = exact rationals + NaN + ±inf with IEEE-754 rules for the
+  special values.  Therefore
+    * ROUNDING IS NOT MODELLED.  "var/std of well-conditioned data agree to floating-point accuracy" is proved here
+      only in its exact-arithmetic form (the one-pass formula EQUALS the two-pass one, §3); cancellation in
+      `sumsq - sum²/n` on ill-conditioned float data is outside the model and is observed by the harness only.
+    * INTEGER WRAP-AROUND IS NOT MODELLED.  `Val` has no machine widths; that sums / products are accumulated in the
+      advertised result dtype on every engine is observed by the harness only (the dtype columns of the
+      `_initialize_aggregation` table are regenerated from the live code but no theorem speaks about overflow).
+  What IS proved, for all inputs:
+    §1  `nanmax` / `nanmin` (`max` / `min`) of a group whose true extreme is ±inf is ±inf – in NumPy's kernels, and in
+        EVERY engine (flox's own sort + `reduceat` code with its ±inf substitute for NaN, numpy_groupies, numbagg)
+    §2  the same through the chunked pipeline, although the intermediate fill of `nanmax` is `-inf` (the sentinel does
+        not collide with a legitimate infinity: absent blocks are neutral, and "no valid member" is decided by the
+        count column, not by comparing with the sentinel)
+    §3  var / std: one-pass finalizer = two-pass `np.var(ddof)`; both NaN as soon as a member is non-finite
+
+  Property theorems only (helper lemmas live in FloxProofs; `FloxProofs/Infinities.lean` for §1/§2).
+-/
+import FloxProofs.Infinities
+import FloxProofs.Finalize
+import FloxProofs.Columns
+
 namespace Flox.C20
-theorem placeholder_members_nil (g : Int) (vs : List Val) : members g [] vs = [] := members_nil_left g vs
+
+/-! ## §1 infinities in the kernels and in every engine -/
+
+/-- **flox's own engine, `nanmax` / `nanmin`** (`_nan_grouped_op`: NaN replaced by ∓inf, `maximum.reduceat` on the
+    stably sorted array, all-NaN groups detected afterwards): every slot is the block value of the group's members in
+    original order – `C01.floxEngine_eq_blockVal` specialised.  `blockVal k fill ms` is `fill` for a group without
+    members or without valid members, NumPy's `nanmax` / `nanmin` otherwise. -/
+theorem floxEngine_nanminmax_eq_blockVal (k : Kernel) (hk : k = .nanmax ∨ k = .nanmin)
+    (codes : List Int) (vals : List Val) (size : Nat) (fill : Val) (hlen : codes.length = vals.length) :
+    EngineFlox.run? k codes vals size fill
+      = some ((List.range size).map fun (g : Nat) => blockVal k fill (members (Int.ofNat g) codes vals)) :=
+  Flox.floxEngine_eq_blockVal k (by rcases hk with rfl | rfl <;> simp) codes vals size fill hlen
+
+/-- **every engine** (`eng ∈ {npg, flox, numbagg}`) returns NumPy's `nanmax` / `nanmin` of the members for every group
+    that has at least one valid (non-NaN) member – whatever the fill, whatever else is in the array -/
+theorem every_engine_nanminmax (eng : Eng) (k : Kernel) (hk : k = .nanmax ∨ k = .nanmin) (codes : List Int)
+    (vals : List Val) (size : Nat) (fill : Val) (hlen : codes.length = vals.length) (g : Nat) (hg : g < size)
+    (hvalid : dropNaN (members (Int.ofNat g) codes vals) ≠ []) :
+    (engGrouped eng k codes vals size fill)[g]? = some (kEval k (members (Int.ofNat g) codes vals)) :=
+  Inf.engGrouped_nanminmax_slot eng k hk codes vals size fill hlen g hg hvalid
+
+/-- NumPy's `nanmax` of members that include `+inf` is `+inf` (NaN members are skipped, not confused with it) -/
+theorem nanmax_keeps_pinf (ms : List Val) (h : Val.pinf ∈ ms) : kEval .nanmax ms = Val.pinf :=
+  Inf.kEval_nanmax_pinf ms h
+
+/-- NumPy's `nanmax` of members whose only valid values are `-inf` is `-inf` – not NaN, not the fill -/
+theorem nanmax_only_ninf (ms : List Val) (h : Val.ninf ∈ ms) (hall : ∀ x ∈ ms, x = Val.ninf ∨ x = Val.nan) :
+    kEval .nanmax ms = Val.ninf :=
+  Inf.kEval_nanmax_only_ninf ms h hall
+
+/-- mirror images for `nanmin` -/
+theorem nanmin_keeps_ninf (ms : List Val) (h : Val.ninf ∈ ms) : kEval .nanmin ms = Val.ninf :=
+  Inf.kEval_nanmin_ninf ms h
+
+theorem nanmin_only_pinf (ms : List Val) (h : Val.pinf ∈ ms) (hall : ∀ x ∈ ms, x = Val.pinf ∨ x = Val.nan) :
+    kEval .nanmin ms = Val.pinf :=
+  Inf.kEval_nanmin_only_pinf ms h hall
+
+/-- `max` / `min` (NaN-propagating): on NaN-free members that include `+inf` / `-inf` the result is that infinity -/
+theorem max_keeps_pinf (ms : List Val) (hnn : ∀ x ∈ ms, x.isNaN = false) (h : Val.pinf ∈ ms) :
+    kEval .max ms = Val.pinf :=
+  Inf.kEval_max_pinf ms hnn h
+
+theorem min_keeps_ninf (ms : List Val) (hnn : ∀ x ∈ ms, x.isNaN = false) (h : Val.ninf ∈ ms) :
+    kEval .min ms = Val.ninf :=
+  Inf.kEval_min_ninf ms hnn h
+
+/-- **every engine: a group whose valid members include `+inf` has `nanmax = +inf`** -/
+theorem every_engine_nanmax_pinf (eng : Eng) (codes : List Int) (vals : List Val) (size : Nat) (fill : Val)
+    (hlen : codes.length = vals.length) (g : Nat) (hg : g < size)
+    (h : Val.pinf ∈ members (Int.ofNat g) codes vals) :
+    (engGrouped eng .nanmax codes vals size fill)[g]? = some Val.pinf := by
+  rw [Inf.engGrouped_nanminmax_slot eng .nanmax (Or.inl rfl) codes vals size fill hlen g hg
+    (Inf.dropNaN_ne_nil h rfl), Inf.kEval_nanmax_pinf _ h]
+
+/-- **every engine: a group whose only valid member(s) are `-inf` has `nanmax = -inf`** (flox's engine substitutes
+    `-inf` for NaN before reducing; the substitute does not swallow the genuine `-inf`) -/
+theorem every_engine_nanmax_only_ninf (eng : Eng) (codes : List Int) (vals : List Val) (size : Nat) (fill : Val)
+    (hlen : codes.length = vals.length) (g : Nat) (hg : g < size)
+    (h : Val.ninf ∈ members (Int.ofNat g) codes vals)
+    (hall : ∀ x ∈ members (Int.ofNat g) codes vals, x = Val.ninf ∨ x = Val.nan) :
+    (engGrouped eng .nanmax codes vals size fill)[g]? = some Val.ninf := by
+  rw [Inf.engGrouped_nanminmax_slot eng .nanmax (Or.inl rfl) codes vals size fill hlen g hg
+    (Inf.dropNaN_ne_nil h rfl), Inf.kEval_nanmax_only_ninf _ h hall]
+
+/-- the mirror images for `nanmin` -/
+theorem every_engine_nanmin_ninf (eng : Eng) (codes : List Int) (vals : List Val) (size : Nat) (fill : Val)
+    (hlen : codes.length = vals.length) (g : Nat) (hg : g < size)
+    (h : Val.ninf ∈ members (Int.ofNat g) codes vals) :
+    (engGrouped eng .nanmin codes vals size fill)[g]? = some Val.ninf := by
+  rw [Inf.engGrouped_nanminmax_slot eng .nanmin (Or.inr rfl) codes vals size fill hlen g hg
+    (Inf.dropNaN_ne_nil h rfl), Inf.kEval_nanmin_ninf _ h]
+
+theorem every_engine_nanmin_only_pinf (eng : Eng) (codes : List Int) (vals : List Val) (size : Nat) (fill : Val)
+    (hlen : codes.length = vals.length) (g : Nat) (hg : g < size)
+    (h : Val.pinf ∈ members (Int.ofNat g) codes vals)
+    (hall : ∀ x ∈ members (Int.ofNat g) codes vals, x = Val.pinf ∨ x = Val.nan) :
+    (engGrouped eng .nanmin codes vals size fill)[g]? = some Val.pinf := by
+  rw [Inf.engGrouped_nanminmax_slot eng .nanmin (Or.inr rfl) codes vals size fill hlen g hg
+    (Inf.dropNaN_ne_nil h rfl), Inf.kEval_nanmin_only_pinf _ h hall]
+
+/-! ## §2 through the chunked pipeline (intermediate fill `-inf` for `nanmax`) -/
+
+/-- split the group's members into any number of ordered parts (absent and all-NaN parts hold the sentinel `-inf`),
+    combine with `nanmax`: if some member is `+inf` the result is `+inf` -/
+theorem chunked_nanmax_keeps_pinf (parts : List (List Val)) (h : Val.pinf ∈ parts.flatten) :
+    combineVal .nanmax (parts.map (blockVal .nanmax Val.ninf)) = Val.pinf := by
+  have hne : parts ≠ [] := by intro e; subst e; simp at h
+  rw [Flox.combine_parts .nanmax .nanmax Val.ninf (by decide) parts hne,
+    EngineFlox.blockVal_valid _ _ _ (Inf.dropNaN_ne_nil h rfl), Inf.kEval_nanmax_pinf _ h]
+
+/-- … and if the only valid members are `-inf` the result is `-inf`: the genuine value, which here coincides with the
+    sentinel – that the group HAS a valid member is recorded by the count column (`H_minmax`: the registry forces
+    `min_count ≥ 1` for `nanmax` / `nanmin`), not by comparing with the sentinel -/
+theorem chunked_nanmax_only_ninf (parts : List (List Val)) (h : Val.ninf ∈ parts.flatten)
+    (hall : ∀ x ∈ parts.flatten, x = Val.ninf ∨ x = Val.nan) :
+    combineVal .nanmax (parts.map (blockVal .nanmax Val.ninf)) = Val.ninf
+    ∧ combineVal .sum (parts.map (blockVal .nanlen Val.zero)) = kEval .nanlen parts.flatten
+    ∧ kEval .nanlen parts.flatten ≠ Val.zero := by
+  have hne : parts ≠ [] := by intro e; subst e; simp at h
+  have hv := Inf.dropNaN_ne_nil h rfl
+  refine ⟨?_, ?_, ?_⟩
+  · rw [Flox.combine_parts .nanmax .nanmax Val.ninf (by decide) parts hne,
+      EngineFlox.blockVal_valid _ _ _ hv, Inf.kEval_nanmax_only_ninf _ h hall]
+  · rw [Flox.combine_parts .nanlen .sum Val.zero (by decide) parts hne, EngineFlox.blockVal_valid _ _ _ hv]
+  · show vcount (dropNaN parts.flatten) ≠ Val.zero
+    cases hd : dropNaN parts.flatten with
+    | nil => exact absurd hd hv
+    | cons x xs =>
+      simp only [vcount, Val.ofNat, Val.zero, List.length_cons, ne_eq, Val.fin.injEq]
+      intro e
+      have h1 : ((xs.length + 1 : Nat) : Rat) = ((0 : Nat) : Rat) := by simpa using e
+      have := Rat.natCast_inj.mp h1
+      omega
+
+theorem chunked_nanmin_keeps_ninf (parts : List (List Val)) (h : Val.ninf ∈ parts.flatten) :
+    combineVal .nanmin (parts.map (blockVal .nanmin Val.pinf)) = Val.ninf := by
+  have hne : parts ≠ [] := by intro e; subst e; simp at h
+  rw [Flox.combine_parts .nanmin .nanmin Val.pinf (by decide) parts hne,
+    EngineFlox.blockVal_valid _ _ _ (Inf.dropNaN_ne_nil h rfl), Inf.kEval_nanmin_ninf _ h]
+
+/-! ## §3 var / std (exact arithmetic; `onepass ddof sq s c = (sq - s*s/c) / (c - ddof)`, NaN when `c ≤ ddof`) -/
+
+/-- the one-pass finalizer of the chunked path on the stored (sum of squares, sum, count) EQUALS the two-pass
+    `np.var(ddof)` of the eager path, for every member list (empty, with NaN, with ±inf) -/
+theorem var_finalize (ddof : Nat) (ms : List Val) :
+    onepass ddof (blockVal .sumsq Val.zero ms) (blockVal .sum Val.zero ms) (blockVal .nanlen Val.zero ms)
+      = kEval (.var ddof) ms :=
+  Flox.var_finalize ddof ms
+
+theorem nanvar_finalize (ddof : Nat) (ms : List Val) :
+    onepass ddof (blockVal .nansumsq Val.zero ms) (blockVal .nansum Val.zero ms) (blockVal .nanlen Val.zero ms)
+      = kEval (.nanvar ddof) ms :=
+  Flox.nanvar_finalize ddof ms
+
+/-- a NaN or ±inf member makes BOTH sides NaN (`Val.isFinite x`: `x` is a rational): infinities are not silently
+    turned into large finite variances, and eager and chunked agree on them -/
+theorem var_nonfinite (ddof : Nat) (ms : List Val) (h : ∃ x ∈ ms, x.isFinite = false) :
+    onepass ddof (blockVal .sumsq Val.zero ms) (blockVal .sum Val.zero ms) (blockVal .nanlen Val.zero ms) = Val.nan
+    ∧ kEval (.var ddof) ms = Val.nan :=
+  Flox.var_nonfinite ddof ms h
+
+/-- `nanvar`: NaN members are skipped, a ±inf member makes both sides NaN -/
+theorem nanvar_nonfinite (ddof : Nat) (ms : List Val) (h : Val.pinf ∈ ms ∨ Val.ninf ∈ ms) :
+    onepass ddof (blockVal .nansumsq Val.zero ms) (blockVal .nansum Val.zero ms) (blockVal .nanlen Val.zero ms)
+      = Val.nan
+    ∧ kEval (.nanvar ddof) ms = Val.nan :=
+  Flox.nanvar_nonfinite ddof ms h
+
+/-! ### non-vacuity -/
+
+/-- codes `[1, 0, 1, 0, 2, 2]` (unsorted), group 0 = `[+inf, NaN]`, group 1 = `[-inf, NaN]`… evaluated on all three
+    engines: the infinities survive, the all-NaN group 2 gets the fill 7 (numbagg: NaN, its own convention) -/
+example :
+    engGrouped .flox .nanmax [1, 0, 1, 0, 2, 2] [.ninf, .pinf, .nan, .nan, .nan, .nan] 3 (.fin 7)
+      = [.pinf, .ninf, .fin 7]
+    ∧ engGrouped .npg .nanmax [1, 0, 1, 0, 2, 2] [.ninf, .pinf, .nan, .nan, .nan, .nan] 3 (.fin 7)
+      = [.pinf, .ninf, .fin 7]
+    ∧ engGrouped .numbagg .nanmax [1, 0, 1, 0, 2, 2] [.ninf, .pinf, .nan, .nan, .nan, .nan] 3 (.fin 7)
+      = [.pinf, .ninf, .nan] := by decide +kernel
+
+/-- `every_engine_nanmax_only_ninf` applies to group 1 of these data -/
+example : (engGrouped .flox .nanmax [1, 0, 1, 0, 2, 2] [.ninf, .pinf, .nan, .nan, .nan, .nan] 3 (.fin 7))[1]?
+    = some Val.ninf :=
+  every_engine_nanmax_only_ninf .flox _ _ 3 (.fin 7) rfl 1 (by decide) (by decide +kernel) (by decide +kernel)
+
+/-- chunked: `[NaN | -inf, NaN | (absent) ]` -/
+example : combineVal .nanmax ([[.nan], [.ninf, .nan], []].map (blockVal .nanmax Val.ninf)) = Val.ninf
+    ∧ combineVal .sum ([[.nan], [.ninf, .nan], []].map (blockVal .nanlen Val.zero)) = Val.fin 1 := by decide +kernel
+
+/-- var with a `+inf` member: both sides NaN; finite members: a real value on both sides -/
+example : onepass 0 (blockVal .sumsq Val.zero [.pinf, .fin (-1)]) (blockVal .sum Val.zero [.pinf, .fin (-1)])
+      (blockVal .nanlen Val.zero [.pinf, .fin (-1)]) = Val.nan
+    ∧ kEval (.var 0) [.pinf, .fin (-1)] = Val.nan
+    ∧ kEval (.var 1) [.fin 1, .fin (-2), .fin 4] = Val.fin 9 := by decide +kernel
+
 end Flox.C20
